@@ -688,9 +688,11 @@ def compare_history(seqs):
 
 
 def compare_all(tier="quick", seed=1):
-    """Returns {"counts": {...}, "mismatches": [model != implementation ...]  (must be empty),
+    """Returns {"counts": {...}, "mismatches": [model != implementation, kind seq|rule|flags]  (must be empty),
     "history": [implementation verdict in a sequence != alone], "dirty": [model from a dirty state != fresh],
-    "v8_classes": {class: {"n": k, "witness": {...}}}, "v8_unclassified": [...], "wall_s": t}."""
+    "v8_classes": {class: {"n": k, "witness": {...}}}, "v8_witnesses": {class: [up to 3 smallest]},
+    "v8_unclassified": [...], "msgclass_histogram", "samples", "wall_s": t}.  Deterministic for a given (tier, seed).
+    V8 oracle exceptions (V8_ORACLE_EXCEPTIONS) are counted in counts["v8_oracle_exceptions"], not reported."""
     t0 = time.time()
     rng = random.Random(seed)
     build_harness("release")
